@@ -496,6 +496,89 @@ fn run_threads(ctx: &mut Ctx, seed: u64, nthreads: usize, iters: usize) {
     ctx.class("mode:threads");
 }
 
+/// "When the last sharer is dropped all memory of the document is released", for documents of a
+/// few MiB: on a fresh thread (fresh thread-local scratch), after warming every route up with a
+/// small document, big documents are parsed through every route, cloned, dropped; the number of
+/// live heap bytes must come back to the warmed-up level plus at most the parser's fixed scratch
+/// allowance (its thread-local node buffer is capped at 3 MiB by design) — nothing that grows with
+/// the document.
+fn big_release(ctx: &mut Ctx, seed: u64) {
+    #[derive(serde::Deserialize)]
+    struct Envelope {
+        #[allow(dead_code)]
+        id: u32,
+        payload: Value,
+    }
+    if !ledger::enabled() {
+        return;
+    }
+    let res = std::thread::spawn(move || -> Vec<(String, i64, usize)> {
+        let mut r = Rng::new(seed);
+        let routes = |text: &str, keep: &mut Vec<Value>| {
+            if let Ok(v) = sonic_rs::from_str::<Value>(text) {
+                keep.push(v.clone());
+                keep.push(v);
+            }
+            if let Ok(e) = sonic_rs::from_str::<Envelope>(&format!("{{\"id\":7,\"payload\":{}}}", text)) {
+                keep.push(e.payload);
+            }
+            if let Ok(mut v) = sonic_rs::from_str::<Vec<Value>>(&format!("[1,{}]", text)) {
+                keep.push(v.pop().unwrap());
+            }
+            let two = format!("{{}} {}", text);
+            let mut st = sonic_rs::Deserializer::from_str(&two).into_stream::<Value>();
+            let _ = st.next();
+            if let Some(Ok(v)) = st.next() {
+                keep.push(v);
+            }
+            if let Ok(v) = sonic_rs::from_slice::<sonic_rs::OwnedLazyValue>(text.as_bytes()) {
+                let _ = sonic_rs::to_string(&v);
+            }
+        };
+        // warm-up: every route once with a small document, and once with one that fills the
+        // thread-local buffer up to its cap
+        let mut keep = vec![];
+        routes("[1,2,{\"a\":[3]}]", &mut keep);
+        let filler = format!("[{}]", vec!["1"; 190_000].join(","));
+        routes(&filler, &mut keep);
+        drop(keep);
+        let base = ledger::snap();
+        let mut out = vec![];
+        for _ in 0..2 {
+            let n = *r.pick(&[250_000usize, 400_000, 1_000_000]);
+            let shape = r.below(3);
+            let text = match shape {
+                0 => format!("[{}]", vec!["1"; n].join(",")),
+                1 => format!("[{}]", vec!["[]"; n].join(",")),
+                _ => format!("{{{}}}", (0..n / 2).map(|i| format!("\"k{}\":[{}]", i, i % 10)).collect::<Vec<_>>().join(",")),
+            };
+            let mut keep = vec![];
+            routes(&text, &mut keep);
+            let len = text.len();
+            drop(text);
+            drop(keep);
+            let after = ledger::snap();
+            out.push((format!("{} nodes, shape {}", n, shape), after.bytes - base.bytes, len));
+        }
+        out
+    })
+    .join();
+    ctx.ops(2);
+    match res {
+        Ok(rows) => {
+            for (what, grew, len) in rows {
+                // the allowance: the 3 MiB cap of the thread-local node buffer plus slack for
+                // allocator-independent bookkeeping of the harness itself
+                if grew > (3 << 20) + (256 << 10) {
+                    ctx.fail("big-document-memory-retained", format!("after parsing a {} byte document ({}) through every route and dropping everything, {} bytes more are live on the thread than after the warm-up", len, what, grew));
+                }
+            }
+            ctx.class("ledger:big-document-released");
+        }
+        Err(_) => ctx.fail("big-release-thread-panicked", "the worker thread panicked".into()),
+    }
+}
+
 impl Check for C16 {
     fn id(&self) -> &'static str {
         "C16"
@@ -516,6 +599,11 @@ impl Check for C16 {
         let n = g.count(30_000, 3_000_000);
         for _ in 0..n {
             emit(Case::with("history", vec![], &[r.next() as i64, 60]));
+        }
+        if g.scale >= 0.5 {
+            for _ in 0..g.count(16, 160) {
+                emit(Case::with("big-release", vec![], &[r.next() as i64]));
+            }
         }
         let n = g.count(32, 640);
         for _ in 0..n {
@@ -557,6 +645,10 @@ impl Check for C16 {
                 ctx.class(&format!("template:{}", t % 10));
                 ctx.sample("permutations");
             }
+            "big-release" => {
+                big_release(ctx, c.p(0) as u64);
+                ctx.sample("big-release");
+            }
             "history" => {
                 run_history(ctx, c.p(0) as u64, c.p(1) as usize);
                 ctx.sample("history");
@@ -572,6 +664,7 @@ impl Check for C16 {
         if b == "native-rel" {
             v.push("ledger:arena-checked");
             v.push("ledger:alloc-checked");
+            v.push("ledger:big-document-released");
         }
         v
     }
